@@ -8,6 +8,7 @@ import (
 	"os/exec"
 	"path/filepath"
 	"strings"
+	"sync"
 )
 
 // Replay templates: /verif/replay/index.json maps a function (full name as in obligation names) to an
@@ -17,7 +18,15 @@ type replayEntry struct {
 	Pkg  string `json:"pkg"`  // package directory relative to the repository root
 	File string `json:"file"` // template under /verif/replay/
 	Test string `json:"test"` // test function name
+	// Search: the template does not need a solver model - when the replay file carries no inputs it searches a small
+	// scope of inputs itself (used for obligations that came back `unknown`, where the solver gives no counterexample)
+	Search bool `json:"search,omitempty"`
 }
+
+var (
+	searchMu       sync.Mutex
+	searchVerdicts = map[string][2]string{}
+)
 
 func loadReplayIndex() map[string]replayEntry {
 	m := map[string]replayEntry{}
@@ -42,9 +51,24 @@ func loadReplayIndex() map[string]replayEntry {
 // template exists for the function; it returns the suffix for the VIOLATION line.
 func (run *checkRun) tryReplay(o *ObResult, path string) string {
 	if len(o.model) == 0 {
-		return "no-failing-input-found"
+		if ent, ok := loadReplayIndex()[o.fn]; !ok || !ent.Search {
+			return "no-failing-input-found"
+		}
 	}
-	verdict, out := runReplay(path)
+	var verdict, out string
+	if len(o.model) == 0 {
+		// one small-scope search per function and run
+		searchMu.Lock()
+		if v, ok := searchVerdicts[o.fn]; ok {
+			verdict, out = v[0], v[1]
+		} else {
+			verdict, out = runReplay(path)
+			searchVerdicts[o.fn] = [2]string{verdict, out}
+		}
+		searchMu.Unlock()
+	} else {
+		verdict, out = runReplay(path)
+	}
 	// record the outcome in the replay file
 	var rf map[string]interface{}
 	if data, err := os.ReadFile(path); err == nil && json.Unmarshal(data, &rf) == nil {
